@@ -81,7 +81,7 @@ def prepare(ctx, uid, spec, codec, n_values, n_fuzz, rng, fixed_cases=None):
     p.unit = None
     p.problems = []          # (what, replay) found before running anything
     p.gen = generate(spec, codec)
-    p.supported = T.c_supported(spec)
+    p.supported = T.c_supported(spec, codec)
     if p.gen[0] != 'ok' or p.supported is not None:
         return p
     _, header, source, compiled = p.gen
@@ -122,7 +122,7 @@ def prepare(ctx, uid, spec, codec, n_values, n_fuzz, rng, fixed_cases=None):
         pybytes.append(bytes(r[1]))
     p.cases, p.pybytes = cases, pybytes
     try:
-        drv, types, walker = c09_driver.build_driver(spec, p.header, 'ns.h', cases)
+        drv, types, walker = c09_driver.build_driver(spec, p.header, 'ns.h', cases, codec=codec)
     except c09_driver.LayoutError as e:
         p.problems.append(('struct layout of the generated header cannot hold the type: %s' % e,
                            dict(kind='layout', spec=spec.to_json(), text=p.text)))
@@ -130,7 +130,7 @@ def prepare(ctx, uid, spec, codec, n_values, n_fuzz, rng, fixed_cases=None):
     p.types = types
     p.sizes = [sizes_for(len(b), rng) for b in pybytes]
     drv += '\n' + c09_driver.driver_main(cases, types, [len(b) for b in pybytes], p.sizes)
-    p.expected = [c09_driver.expected_tokens(spec, spec.index[(m, n)], v) for m, n, v in cases]
+    p.expected = [c09_driver.expected_tokens(spec, spec.index[(m, n)], v, codec=codec) for m, n, v in cases]
     # fuzz inputs
     fuzz = []
     must_reject = set()      # indices of inputs with a length above the maximum: have to be refused
@@ -150,6 +150,8 @@ def prepare(ctx, uid, spec, codec, n_values, n_fuzz, rng, fixed_cases=None):
             # hostile lengths: above the maximum but expressible in the length field
             m, n = mn
             targets = T.over_targets(spec, spec.index[(m, n)])
+            if 'oer-length-wraps' in ACTIVE:
+                targets = [tg for tg in targets if not wraps(tg)]
             for tg in targets[:4]:
                 for _ in range(2):
                     ov = T.gen_over_value(spec, spec.index[(m, n)], rng, tg)
@@ -303,6 +305,28 @@ def first_diag(err):
     return m.group(1) if m else err.strip()[:200]
 
 
+def wraps(t):
+    """OER generator: variable-size node whose uint8_t length member is assigned a wider decoded length."""
+    if t.kind == 'octets':
+        return t.lo != t.hi and 128 <= t.hi <= 255
+    if t.kind == 'seqof':
+        return t.lo != t.hi and t.hi <= 255
+    return False
+
+
+def has_wrapping_length(spec, ty, depth=0):
+    t = spec.resolve(ty)
+    if depth > 40 or wraps(t):
+        return True
+    if t.kind == 'seq':
+        return any(has_wrapping_length(spec, m.ty, depth + 1) for m in t.members + getattr(t, 'additions', []))
+    if t.kind == 'seqof':
+        return has_wrapping_length(spec, t.elem, depth + 1)
+    if t.kind == 'choice':
+        return any(has_wrapping_length(spec, a, depth + 1) for _, a in t.alts)
+    return False
+
+
 def has_ext_seq(spec, ty, depth=0):
     t = spec.resolve(ty)
     if depth > 40:
@@ -368,7 +392,7 @@ def judge_fuzz(ctx, p, fz, report):
                 (h2[1] if len(h2) > 1 else '')[:60], r3, tok1[:160], tok2[:160]), rep, 'fuzz-roundtrip')
             continue
         if pyvalid:
-            want = c09_driver.expected_tokens(spec, ty, py[1])
+            want = c09_driver.expected_tokens(spec, ty, py[1], codec=p.codec)
             if want != tok1 and 'sequence-extension-bit-ignored' in ACTIVE:
                 # while that finding is open a set extension bit of a SEQUENCE makes the two decoders
                 # read different things: judge only canonical encodings
@@ -381,6 +405,10 @@ def judge_fuzz(ctx, p, fz, report):
                        rep, 'fuzz-differs')
         elif py[0] == 'ok':
             ctx.count('fuzz:accepted-value-outside-constraints')
+        elif py[1] == 'decode' and 'oer-enum-accepts-any-value' in ACTIVE and 'numeration value' in py[2]:
+            ctx.count('fuzz:enumeration-value-not-checked(open finding)')
+        elif py[1] == 'decode' and 'oer-length-wraps' in ACTIVE and has_wrapping_length(spec, ty):
+            ctx.count('fuzz:length-wrap(open finding)')
         elif py[1] == 'decode' and not ('sequence-extension-bit-ignored' in ACTIVE and has_ext_seq(spec, ty)):
             # the Python decoder refuses these bytes (bad enumeration / choice index, bad length, ...):
             # a generated decoder that takes them has lost a check
